@@ -173,6 +173,25 @@ class WorldFlow(Flow):
         if d is None:
             return None
         parts = d.split(".")
+        if len(parts) == 1 and getattr(self, "f", None) is not None:
+            # a local bound exactly once, to a class / module constant (`solved = Cls.solved_status_name`): the constant's token
+            if not hasattr(self, "_local_const_alias"):
+                self._local_const_alias = {}
+                counts = {}
+                for st in ast.walk(self.f.node):
+                    if isinstance(st, (ast.Assign, ast.AugAssign, ast.AnnAssign, ast.For, ast.comprehension)):
+                        tg = st.targets if isinstance(st, ast.Assign) else [st.target]
+                        for t_ in tg:
+                            for x_ in ast.walk(t_):
+                                if isinstance(x_, ast.Name):
+                                    counts[x_.id] = counts.get(x_.id, 0) + 1
+                for st in ast.walk(self.f.node):
+                    if isinstance(st, ast.Assign) and len(st.targets) == 1 and isinstance(st.targets[0], ast.Name) and counts.get(st.targets[0].id) == 1 and \
+                            isinstance(st.value, ast.Attribute):
+                        tok = self.const_token(st.value)
+                        if tok is not None:
+                            self._local_const_alias[st.targets[0].id] = tok
+            return self._local_const_alias.get(parts[0])
         if len(parts) >= 2:
             attr = parts[-1]
             owner = ".".join(parts[:-1])
